@@ -199,7 +199,7 @@ Example viewonly_every_position :
     [[(StInit, false)]; [(StInit, false)]; [(StInit, false)]] ].
 Proof. vm_compute. reflexivity. Qed.
 
-(* ---- the password file changes between connections: the session admitted under the old file
+(* ---- the password file changes between connections: the session let in under the old file
    stays (its recorded password set is the old one), the old password is refused afterwards, the new
    one accepted *)
 Definition file_of (pw : list N) : list N :=
